@@ -259,7 +259,7 @@ def verify_contract(modname, key, tier="quick", shard=0, nshards=1):
         out["wall_s"] = time.time() - t0
         return out
     out.update(sha256=info["sha256"], paths=info["paths"], lines=info["lines"])
-    lemmas = list(sm.U.lemmas) + used_lemmas(sm, c.use)
+    lemmas = ([] if getattr(c, "no_library", False) else list(sm.U.lemmas)) + used_lemmas(sm, c.use)
     out["uses_lemmas"] = list(c.use)
     # vacuity: the precondition (with sort invariants) must be satisfiable
     s = _solver(5000)
@@ -415,6 +415,17 @@ def prove_lemmas(modname):
                     for fi, ft in enumerate(T.elem.elems):
                         if ft is T:
                             subterms.append(V(T, T.elem.get(hd.t, fi)))
+                if lem.get("ih"):
+                    # explicit (quantifier-free) instances of the induction hypothesis for the tail, given in the sidecar
+                    st_cons = State(dict(env))
+                    for inst in lem["ih"]:
+                        envh = dict(vars_)
+                        envh[ind] = tl
+                        for vn, src in inst.items():
+                            envh[vn] = coerce(ev.ev_str(src, st_cons), lem["vars"][vn])
+                        hh, gh = instance(envh)
+                        ihs.append(z3.Implies(z3.And(*hh), gh) if hh else gh)
+                    subterms = []
                 for sub in subterms:
                     envh = dict(vars_)
                     envh[ind] = sub
